@@ -105,6 +105,9 @@ func intersecting(context *api.Context, geometry b6.Geometry) (b6.Query, error) 
 
 // Return a query that will match features that intersect a spherical cap centred on the given point, with the given radius in meters.
 func intersectingCap(context *api.Context, center b6.Geometry, radius float64) (b6.Query, error) {
+	if err := requireGeometry("intersecting-cap", center); err != nil {
+		return nil, err
+	}
 	return b6.NewIntersectsCap(s2.CapFromCenterAngle(center.Point(), b6.MetersToAngle(radius))), nil
 }
 
